@@ -394,10 +394,19 @@ func genDamage(w *bufio.Writer, run *Runner, seed uint64, n int, thorough bool) 
 		k := 1 + r.intn(6)
 		var msgs []message.Message
 		t := int64(1_000_000)
+		mono := r.chance(50)
 		for j := 0; j < k; j++ {
 			m := randMsg(r, base+int64(j), true)
-			t += int64(r.intn(3))
-			m.Time = time.UnixMicro(t).UTC() // non-decreasing: the time index is compared by Check
+			if mono {
+				t += int64(r.intn(3))
+			} else {
+				// any order: the index carries the running maximum, from 0, in every producer
+				t = int64(1_000_000) + int64(r.intn(30)) - 10
+				if r.chance(15) {
+					t = -int64(r.intn(5))
+				}
+			}
+			m.Time = time.UnixMicro(t).UTC()
 			msgs = append(msgs, m)
 		}
 		lb, ib := buildSegment(dir, base, v, p, msgs)
